@@ -13,8 +13,9 @@ specfun("to_data", ["Change"], "Opaque[CD]", note="ChangeToData()(c)")
 specfun("to_change", ["Opaque[CD]"], "Change", note="DataToChange(project)(d)")
 ghost("saved", "Seq[Seq[Opaque[CD]]]")
 contract("History.save", abstract=True, is_property=True, pure=True, heap_independent=True, params={"self": "History"}, returns="Bool")
+specfun("stored", ["_DataFiles", "Str"], "Opt[Seq[Seq[Opaque[CD]]]]", note="what read_data answers for that name: None or the complete saved value")
 contract("_DataFiles.read_data", abstract=True, params={"self": "_DataFiles", "name": "Str"}, returns="Opt[Seq[Seq[Opaque[CD]]]]",
-         ensures=["implies(not is_none(result), len(val(result)) == 2)"],
+         ensures=["implies(not is_none(result), len(val(result)) == 2)", "result == stored(self, name)"],
          note="None or the complete value last written (c18_datafiles.py); History.write only ever writes a list of two lists (proved below)")
 contract("_DataFiles.write_data", abstract=True, params={"self": "_DataFiles", "name": "Str", "data": "Seq[Seq[Opaque[CD]]]"},
          requires=["len(data) == 2"], modifies=["saved"], ensures=["saved == data"])
@@ -24,8 +25,9 @@ contract("DataToChange.__call__", abstract=True, params={"self": "DataToChange",
          ensures=["result == to_change(data)"], note="conversion contract: c12 sidecar")
 contract("ChangeToData.__call__", abstract=True, params={"self": "ChangeToData", "change": "Change"}, returns="Opaque[CD]",
          ensures=["result == to_data(change)"])
+specfun("max_undos_of", ["History"], "Int")
 contract("History._remove_extra_items", abstract=True, params={"self": "History"}, modifies=["self._undo_list"],
-         ensures=["len(self._undo_list) <= len(old(self._undo_list))"], note="verified in c11_history.py")
+         ensures=["len(self._undo_list) <= len(old(self._undo_list))", "len(self._undo_list) <= max(max_undos_of(self), 0)"], note="verified in c11_history.py")
 specdef("saved_is", {"sv": "Seq[Seq[Opaque[CD]]]", "u": "Seq[Change]", "r": "Seq[Change]"}, "Bool",
         "len(sv) == 2 and len(sv[0]) == len(u) and len(sv[1]) == len(r) and "
         "forall(lambda k: implies(0 <= k and k < len(u), sv[0][k] == to_data(u[k]))) and "
@@ -40,11 +42,19 @@ contract("History._load_history", source=M + "History._load_history", params={"s
                                           "len(self._undo_list) == len(val(result)[0])",
                                           "forall(lambda k: implies(0 <= k and k < len(self._undo_list), self._undo_list[k] == to_change(val(result)[0][k])))",
                                           "forall(lambda k: implies(0 <= k and k < j, self._redo_list[k] == to_change(val(result)[1][k])))"]}},
-         ensures=["True"],
+         ensures=[
+             # nothing saved, or saving switched off: both lists stay empty
+             "implies(not self.save or is_none(stored(self.project.data_files, 'history')), len(self._undo_list) == 0 and len(self._redo_list) == 0)",
+             # otherwise both lists are the element-wise conversion of the two saved lists, in order
+             "implies(self.save and not is_none(stored(self.project.data_files, 'history')), "
+             "        len(self._undo_list) == len(val(stored(self.project.data_files, 'history'))[0]) and len(self._redo_list) == len(val(stored(self.project.data_files, 'history'))[1]) and "
+             "        forall(lambda k: implies(0 <= k and k < len(self._undo_list), self._undo_list[k] == to_change(val(stored(self.project.data_files, 'history'))[0][k]))) and "
+             "        forall(lambda k: implies(0 <= k and k < len(self._redo_list), self._redo_list[k] == to_change(val(stored(self.project.data_files, 'history'))[1][k]))))"],
          note="no exception for None or a complete value; the loaded lists are the element-wise conversion of the saved ones")
 contract("History.write", source=M + "History.write", params={"self": "History"},
          modifies=["self._undo_list", "saved"], raises={},
-         ensures=["implies(self.save, saved_is(saved, self._undo_list, self._redo_list))"],
+         ensures=["implies(self.save, saved_is(saved, self._undo_list, self._redo_list))",
+                  "implies(self.save, len(self._undo_list) <= max(max_undos_of(self), 0))"],
          locals={"data": "Seq[Seq[Opaque[CD]]]"},
          loops={1: {"index": "i", "elem": "Opaque[CD]", "inv": ["len(_comp) == i", "forall(lambda k: implies(0 <= k and k < i, _comp[k] == to_data(self._undo_list[k])))"]},
                 2: {"index": "i", "elem": "Opaque[CD]", "inv": ["len(_comp) == i", "len(data) == 1", "len(data[0]) == len(self._undo_list)",
